@@ -19,6 +19,7 @@ SIG_DURING = "C10:Close-while-OnData-runs-no-peer-notification-no-OnLocalClose"
 SIG_CAS = "C10:close-loses-state-CAS-returns-nil-stream-not-closed"
 SIG_GHOST = "C10:data-in-flight-to-locally-closed-server-stream-recreates-stream-id"
 SIG_SELFWAIT = "C10:Close-inside-OnData-waits-for-its-own-goroutine"
+SIG_FLUSH = "C10:Flush-after-a-returned-Close-succeeds"
 
 
 def t_signature(c, msg):
@@ -27,6 +28,8 @@ def t_signature(c, msg):
         return "C10:harness-setup-failed"
     if msg.startswith("ghost:"):
         return SIG_GHOST
+    if sc in ("inside-ops", "during-ops") and msg.startswith("finality:"):
+        return SIG_FLUSH
     if sc in ("inside-twice", "inside-after-peer-close"):
         return SIG_SELFWAIT if "did not return" in " ".join(c.get("oracle") or []) else "C10:" + sc + ":" + re.sub(r"\d+", "#", msg)[:60]
     if sc == "inside":
